@@ -262,7 +262,7 @@ func reportViolation(e Engine, o WorkerOpts, u, sub int, plan any, r *Result) (s
 	return path, v.Rule + ": " + v.Detail
 }
 
-const hangLimit = 20 * time.Second
+const hangLimit = 10 * time.Second
 
 // watchdog is the only other goroutine of a worker. It never touches the
 // simulation; it only notices that one plan has been executing for longer
